@@ -194,6 +194,7 @@ void perturb(ops::ThdmPoint& p, int near)
 std::map<uint64_t, ops::MssmPoint> g_edge_mssm;
 std::map<uint64_t, ops::ThdmPoint> g_edge_thdm;
 uint64_t g_edge_found = 0;
+uint64_t g_fresh_thread_evals = 0, g_copy_evals = 0, g_stale_injections = 0;
 
 template <class P, class Make, class Destroy>
 int classify_point(const P& p, Make make, Destroy destroy)
@@ -324,7 +325,7 @@ OpResult exec_op(Context& c, const std::vector<std::string>& t, std::vector<std:
 {
    if (g_inject_stale_thread_state) {
       static const int stale[] = {ERANGE, EDOM, EINVAL, ENOMEM};
-      errno = stale[g_inject_counter++ % 4];
+      errno = stale[g_inject_counter++ % 4]; ++g_stale_injections;
       std::feraiseexcept(FE_INVALID | FE_DIVBYZERO | FE_OVERFLOW | FE_UNDERFLOW | FE_INEXACT);
    }
    const EnvSnap before = EnvSnap::take();
@@ -381,6 +382,7 @@ OpResult exec_op_inner(Context& c, const std::vector<std::string>& t, std::vecto
             // "... and does not depend on what was computed before": the same evaluation in a FRESH thread (pristine
             // thread_local state, errno, floating-point environment) must give the same bits as here, on a thread that
             // has executed the whole history so far
+            ++g_fresh_thread_evals; ++g_copy_evals;
             uint64_t tb = 0; std::string texc;
             { std::thread th([&] { try { tb = sim::bits(md->m ? ops::eval_mssm(fn, *md->m) : ops::eval_thdm(fn, *md->t)); } catch (...) { texc = exception_class(); } }); th.join(); }
             if (!texc.empty() || tb != r.bits) modified.push_back("history-dependent:fresh_thread:" + t[1]);
@@ -739,6 +741,7 @@ int exec_one(const char* planfile, bool trace)
    c.add("mutex_locks", o.sim.mutex_locks); c.add("mutex_waits", o.sim.mutex_waits); c.add("atomic_ops", o.sim.atomic_ops); c.add("once_calls", o.sim.once_calls);
    c.add("clock_reads", o.sim.clock_reads); c.add("random_reads", o.sim.random_reads);
    c.add("tasks_" + std::to_string(o.ntasks)); c.add("probe_edge_points_located_by_bisection", g_edge_found);
+   c.add("oracle_evaluations_repeated_in_a_fresh_thread", g_fresh_thread_evals); c.add("oracle_evaluations_repeated_on_a_fresh_copy", g_copy_evals); c.add("oracle_operations_with_stale_errno_and_fp_flags_injected", g_stale_injections);
    if (o.discarded) c.add("discarded_unsupported_sync");
    if (o.sim.preempt_in_op > 0 && o.ntasks >= 2) c.add("runs_with_preemption_inside_operation");
    for (size_t i = 0; i < o.sim.probe_hits.size() && i < g_probe_owner.size(); ++i)
